@@ -93,7 +93,7 @@ pub proof fn lemma_pow10_le8(n: nat)
 // A-tonic-timeout-01: is_ascii_digits(s) (s.bytes().all(|b| b.is_ascii_digit())): Kani-complete for every s of at most 8 bytes
 // (kx harness timeout_digits); linked as a callee contract
 #[verifier::external_body]
-pub fn is_ascii_digits(s: &str) -> (r: bool) ensures r == all_digits(s@) { unimplemented!() }
+pub fn is_ascii_digits(s: &str) -> (r: bool) requires s@.len() <= 8 ensures r == all_digits(s@) { unimplemented!() }
 // A-core-08: Result::and_then / map_err / unwrap_or_else in closure requires/ensures form
 pub assume_specification<T, E, U, F: FnOnce(T) -> Result<U, E>>[ Result::<T, E>::and_then ](res: Result<T, E>, f: F) -> (r: Result<U, E>)
     requires res matches Ok(t) ==> f.requires((t,)),
